@@ -3,6 +3,9 @@
   Here: the conversion `toJVal` (ToGoValue + what json.Marshal needs) terminates on every heap,
   keeps empty containers, rejects cycles and inexpressible values; partial round trip with
   `newValueJson`.
+  All theorems are at the level of the JSON TREE (`JVal`) handed to the encoder.  Nothing here
+  relates the BYTES of `Json.marshalIndent` to the decoder: "the text written is valid JSON and
+  parses back" (string escapes, non-ASCII text, every finite double) has no theorem in this file.
 -/
 import Jqawk.Model.Driver
 import Jqawk.Model.Natives
@@ -81,6 +84,8 @@ theorem toJVal_cycle_error (h : Heap) (n : Nat) (path : List Cont) (v : Val)
     toJVal h (n + 1) path true v = .error "circular reference" := by
   rw [toJVal.eq_def]; simp [hp]
 
+example : onPath [.o 0] (.obj 0) = true ∧ onPath [.o 0] (.arr 0) = false := by decide
+
 /-- Clause "a value JSON cannot express (function, non-finite number) is an error": functions,
     natives, regexes and non-finite numbers are errors; null and unset become `null` -/
 theorem toJVal_rejects (h : Heap) (n : Nat) (path : List Cont) (check : Bool) :
@@ -141,9 +146,10 @@ theorem toJVal_other_error_sound (h : Heap) (v : Val) (m : String)
   · exact absurd hc hm
   · exact r
 
-/-- Clause "parses back to v … for all values constructible": the conversion SUCCEEDS exactly
-    when no container reachable from `v` reaches itself and every reachable value is
-    JSON-expressible.  (With `toJVal_terminates`: in every other case it is an error.) -/
+/-- Characterisation of success (not of the result): the conversion SUCCEEDS exactly when no
+    container reachable from `v` reaches itself and every reachable value is JSON-expressible.
+    (With `toJVal_terminates`: in every other case it is an error.)  What the resulting tree is,
+    and that its text parses back to `v`, is not stated here. -/
 theorem toJVal_acyclic_ok (h : Heap) (v : Val) :
     (∃ j, toJValTop h v = .ok j) ↔
       (∀ w c, RootReach h v w → w.cont? = some c → ¬ Reach h c c) ∧
@@ -188,12 +194,15 @@ example : Reach ⟨#[.arr 0, .obj 0], #[#[1]], #[[(b!"k", 0)]]⟩ (.o 0) (.o 0) 
   (`jsonFormat (parse lit)`: the nearest double as the encoder prints it).
   `JVal.Plain j`: object keys pairwise distinct at every level (as in every decoded document:
   the decoder keeps the last duplicate) and every number literal denotes a finite double
-  (`numOk` of the decoder). -/
+  (`numOk` of the decoder).  Note: `Plain` does not ask that a literal parses; `norm` and
+  `newValueJson` both read an unparsable literal as 0 (`getD`), so for such a `JVal` — which the
+  decoder never produces, a fact not proved here — the round trip holds by that default. -/
 
 /-- Clause "the JSON written through -o by a program that does not modify it parses to a value
     equal to the input as read": the tree that `newValueJson` builds in the heap converts back
     to the document — for every heap the construction started from, up to key order and number
-    re-formatting. -/
+    re-formatting (`norm`).  Tree level only: the step "written … parses to" (encoder bytes,
+    decoder) is not part of the statement. -/
 theorem newValue_roundtrip (j : JVal) (hj : j.Plain) (s s' : St) (v : Val)
     (e : newValueJson j s = .ok v s') : toJValTop s'.heap v = .ok j.norm :=
   newValueJson_toJValTop j hj s s' v e
